@@ -64,7 +64,11 @@ fn main() {
     match id.as_str() {
       "bench-rpc" => { chain::sats::bench_rpc(); std::process::exit(0) }
       "bench-sats" => { chain::sats::bench(); std::process::exit(0) }
+      "C25" => Some(codec::runestone::run(&ctx)),
       "C26" => Some(codec::varint::run(&ctx)),
+      "C27" => Some(codec::envelope::run(&ctx)),
+      "C28" => Some(codec::properties::run(&ctx)),
+      "C35" => Some(codec::storage::run(&ctx)),
       "C01" => Some(chain::sats::run(&ctx, "C01")),
       "C02" => Some(chain::sats::run(&ctx, "C02")),
       "C17" => Some(chain::sats::run(&ctx, "C17")),
@@ -72,6 +76,8 @@ fn main() {
       "C09" => Some(chain::runes::run(&ctx, "C09")),
       "C10" => Some(chain::runes::run(&ctx, "C10")),
       "C11" => Some(chain::runes::run(&ctx, "C11")),
+      "C15" => Some(chain::configs::run(&ctx)),
+      "C14" => Some(chain::reorg::run(&ctx)),
       "C12" => Some(chain::sched::run(&ctx)),
       "C37" => Some(chain::events::run(&ctx)),
       "C03" => Some(chain::inscriptions::run(&ctx, "C03")),
